@@ -69,12 +69,18 @@ def build_item(it, key):
                 "crit0": BB.criticals_from_spec(sp), "ops": sorted(S.ops_in(sp)), "name": sp["op"],
                 "overflow": bool(S.ops_in(sp) & OVERFLOW_OPS)}
         meta["planar"] = "Planar" in S.ops_in(sp)
+        # conditioner layers with an unbounded-scale transformer (no minimum scale as in the flow factories): scale
+        # underflow cascades to inf for |x| ~ 10 even at initialisation - a modelling hazard, not judged as non-finite
+        meta["fragile"] = bool(S.ops_in(sp) & {"transformer:Affine", "transformer:Scale"})
         single = sp["op"] == "BNAF" or (sp["op"] == "Invert" and sp["child"]["op"] == "BNAF")
         meta["multi_numeric"] = (fn or inn) and not single
         return b, meta
     c = it["case"]
     flow = flowgen.build_flow(c, key)
-    b = flow.bijection
+    return flow.bijection, flow_meta(c)
+
+
+def flow_meta(c):
     fn, inn = flowgen.flow_numeric(c)
     dim = c["dim"]
     crit = {}
@@ -89,11 +95,10 @@ def build_item(it, key):
         crit["leaky_switch_x"] = [3.0, -3.0]
     z = np.zeros((dim,), dtype=int)
     inv_ok = flowgen.flow_invertible(c)
-    meta = {"shape": (dim,), "cond_shape": None if c["cond_dim"] is None else (c["cond_dim"],), "tags": (z, z),
+    return {"shape": (dim,), "cond_shape": None if c["cond_dim"] is None else (c["cond_dim"],), "tags": (z, z),
             "has_inv": inv_ok, "fwd_ok": inv_ok or not c["invert"], "fwd_numeric": fn, "inv_numeric": inn, "crit0": crit,
             "ops": ["flow:" + c["factory"], "Invert" if c["invert"] else "Scan", "Scan"], "name": flowgen.case_name(c),
-            "overflow": False, "multi_numeric": bool(fn or inn), "planar": c["factory"] == "planar_flow"}
-    return b, meta
+            "overflow": False, "multi_numeric": bool(fn or inn), "planar": c["factory"] == "planar_flow", "fragile": False}
 
 
 def _leaky_preimages_of_one(max_val):
@@ -267,7 +272,7 @@ def _one_structure(rec, prop, it, meta, b, bundle, mode, rng, T, fdt):
         rec.count("nonfinite_forward_outputs", nonfinite.sum())
         nonfinite = nonfinite & (nx <= 30.0)
     if nonfinite.any():
-        if meta["overflow"] or not moderate_params:
+        if meta["overflow"] or meta["fragile"] or not moderate_params:
             rec.count("nonfinite_gated_overflow_or_extreme_params", nonfinite.sum())
         else:
             i = int(np.where(nonfinite)[0][0])
@@ -340,7 +345,7 @@ def _one_structure(rec, prop, it, meta, b, bundle, mode, rng, T, fdt):
             numextra = 10 * T.tol_inv * (amp_inv if amp_inv is not None else amp_fwd) * 10
             tl = tl + numextra
         cmp_ = ok & ~ill & np.isfinite(ref)
-        rc = make_recheck(bundle, b, xs, cs, T, rng, sign=+1) if "J" in D else None
+        rc = make_recheck(bundle, b, xs, cs, T, rng, sign=+1, crit_flag=xcrit, numeric=(meta["fwd_numeric"] or meta["inv_numeric"]))
         _cmp_logdet(rec, "logdet.forward", ld, ref, tl, cmp_, xcrit, n, meta, it, mode, det, allow_tie=("J" in D), recheck=rc)
         rec.count("logdet_forward_compared", cmp_.sum())
         rec.count("logdet_ill_conditioned", (ok & ill).sum())
@@ -364,7 +369,7 @@ def _one_structure(rec, prop, it, meta, b, bundle, mode, rng, T, fdt):
             tli, illi = T.logdet(refi, n, nJr, nJri)
             tli = tli + numextra
             cmpi = ok & ~illi & np.isfinite(refi) & np.isfinite(nJr) & np.isfinite(nJri)
-            rc = make_recheck(bundle, b, D["xr"], cs, T, rng, sign=-1) if "Jr" in D else None
+            rc = make_recheck(bundle, b, D["xr"], cs, T, rng, sign=-1, crit_flag=xcrit, numeric=(meta["fwd_numeric"] or meta["inv_numeric"]))
             _cmp_logdet(rec, "logdet.inverse", ldi, refi, tli, cmpi, xcrit, n, meta, it, mode, det, allow_tie=("Jr" in D), tie_sign=-1, recheck=rc)
             rec.count("logdet_inverse_compared", cmpi.sum())
 
@@ -414,7 +419,7 @@ def _one_structure(rec, prop, it, meta, b, bundle, mode, rng, T, fdt):
 
     rec.count("nonfinite_inverse_outputs", (~fin).sum())
     nf2 = ~fin & (BB.absmax(yc) <= 30.0)
-    if nf2.any() and not meta["overflow"] and moderate_params:
+    if nf2.any() and not meta["overflow"] and not meta["fragile"] and moderate_params:
         # a moderate codomain point whose preimage is not finite (parameters near initialisation, no overflow op)
         i = int(np.where(nf2)[0][0])
         rec.violation("nonfinite.inverse", f"{meta['name']} [{mode}]: inverse returned a non-finite value at codomain point y={yc[i].tolist()}",
@@ -462,7 +467,7 @@ def _one_structure(rec, prop, it, meta, b, bundle, mode, rng, T, fdt):
         if meta["multi_numeric"]:
             tli = tli + 10 * T.tol_inv * amp2 * 10
         cmpi = ok2 & ~illi & np.isfinite(refi)
-        rc = make_recheck(bundle, b, C["xp"], cs2, T, rng, sign=-1) if "J" in C else None
+        rc = make_recheck(bundle, b, C["xp"], cs2, T, rng, sign=-1, crit_flag=ycrit, numeric=(meta["fwd_numeric"] or meta["inv_numeric"]))
         _cmp_logdet(rec, "logdet.inverse", ldi, refi, tli, cmpi, ycrit, n, meta, it, mode, det2, allow_tie=("J" in C), tie_sign=-1, recheck=rc)
         rec.count("logdet_inverse_compared", cmpi.sum())
         nt = cmpi & (np.abs(refi) > 1e-6)
@@ -535,8 +540,9 @@ def _cmp_logdet(rec, mech, ld, ref, tl, cmp_, crit_flag, n, meta, it, mode, det,
                       it, mode, det(i, log_det=ld[i], autodiff=ref[i]))
 
 
-def make_recheck(bundle, b, base_pts, base_conds, T, rng, sign=+1, n=1, allow_tie=True):
-    """Second pass: oracle at float neighbours of base_pts[i] (joint nudges of 1..4096 ulp, 4 sign patterns)."""
+def make_recheck(bundle, b, base_pts, base_conds, T, rng, sign=+1, n=1, allow_tie=True, crit_flag=None, numeric=False):
+    """Second pass: oracle over float neighbours of base_pts[i] (joint nudges of 1..4096 ulp, 12 sign patterns;
+    for numerically inverted structures also absolute nudges spanning the search tolerance)."""
     import jax.numpy as jnp
 
     N = len(base_pts)
@@ -544,33 +550,50 @@ def make_recheck(bundle, b, base_pts, base_conds, T, rng, sign=+1, n=1, allow_ti
     mags = [1, 2, 4, 64, 4096]
 
     def recheck(i, ldv, tol, tie_sign):
-        x0 = base_pts[i]
-        sp = np.spacing(np.abs(x0)).astype(np.float64)
-        pats = [np.ones(x0.shape), -np.ones(x0.shape), rng.choice([-1.0, 1.0], x0.shape), rng.choice([-1.0, 1.0], x0.shape)]
+        x0 = base_pts[i].astype(np.float64)
+        sp = np.spacing(np.abs(base_pts[i])).astype(np.float64)
+        sg = np.where(x0 >= 0, 1.0, -1.0)
+        pats = [np.ones(x0.shape), -np.ones(x0.shape), -sg, sg] + [rng.choice([-1.0, 1.0], x0.shape) for _ in range(8)]
         var = []
         for p_ in pats:
             for m in mags:
-                var.append((x0.astype(np.float64) + m * p_ * sp).astype(fdt))
+                var.append((x0 + m * p_ * sp).astype(fdt))
+        if numeric:
+            for p_ in pats[:6]:
+                for a in (1e-8, 1e-7, 1e-6, 1e-5):
+                    var.append((x0 + a * p_ * (1 + np.abs(x0))).astype(fdt))
         var = np.asarray(var)
-        pts = np.concatenate([var, np.repeat(x0[None], max(0, N - len(var)), 0)])[:N] if len(var) <= N else var[:N]
-        cs = None if base_conds is None else jnp.asarray(np.repeat(base_conds[i][None], N, 0))
-        D = bundle.dom(b, jnp.asarray(pts), cs)
-        J = D["J"].astype(np.float64)[: len(var)]
-        r = sign * BB.slogdet_abs(J)
-        r = r.reshape(len(pats), len(mags)) if len(var) == len(pats) * len(mags) else r[None]
+        rs = []
+        for s0 in range(0, len(var), N):
+            chunk = var[s0:s0 + N]
+            pts = np.concatenate([chunk, np.repeat(base_pts[i][None], N - len(chunk), 0)]) if len(chunk) < N else chunk
+            cs = None if base_conds is None else jnp.asarray(np.repeat(base_conds[i][None], N, 0))
+            D = bundle.dom(b, jnp.asarray(pts), cs)
+            if "J" in D:
+                r = BB.slogdet_abs(D["J"].astype(np.float64)[: len(chunk)])
+            else:
+                r = -BB.slogdet_abs(D["Jg"].astype(np.float64)[: len(chunk)])
+            rs.append(sign * r)
+        r = np.concatenate(rs)
+        r_ulp = r[: len(pats) * len(mags)].reshape(len(pats), len(mags))
         # local sensitivity of the oracle per ulp of input (jumps > 1e-2 are kinks, not noise)
-        steps = np.abs(r[:, 0] - r[:, 1]) if r.shape[1] > 1 else np.zeros(1)
+        steps = np.abs(r_ulp[:, 0] - r_ulp[:, 1])
         steps = steps[np.isfinite(steps) & (steps < 1e-2)]
         noise = 8 * float(steps.max()) if len(steps) else 0.0
-        rr = r.ravel()
-        rr = rr[np.isfinite(rr)]
+        rr = r[np.isfinite(r)]
         if len(rr) == 0:
             return True, None  # oracle not evaluable around the point: gated
         # envelope criterion: the reported value must lie within the range the oracle takes over the float
-        # neighbourhood (both one-sided derivatives at a kink, and everything the oracle's own rounding noise
-        # produces in a sensitive region), extended by tol + noise; shifted by k log 2 for min/max ties
-        lo, hi = rr.min() - tol - noise, rr.max() + tol + noise
+        # neighbourhood (both one-sided derivatives at a kink, everything the oracle's rounding noise produces in a
+        # sensitive region), extended by tol + noise; shifted by k log 2 for min/max ties.  At critical-directed
+        # points and for numerically inverted structures several coordinates can sit on kinks behind a mixing layer
+        # (2^m one-sided combinations, not enumerable from outside): the envelope is then widened by its own width.
+        W = float(rr.max() - rr.min())
+        widen = W if (W > 10 * tol and (numeric or crit_flag is None or bool(crit_flag[i]))) else 0.0
+        lo, hi = rr.min() - tol - noise - widen, rr.max() + tol + noise + widen
         ks = np.arange(0, 65) if allow_tie else np.arange(0, 1)
+        if numeric:  # the oracle differentiates the other direction there: a tie shifts it the other way
+            ks = np.arange(-64, 65)
         inside = (ldv >= lo + tie_sign * ks * BB.LOG2) & (ldv <= hi + tie_sign * ks * BB.LOG2)
         if inside.any():
             return True, 0.0
